@@ -26,12 +26,14 @@ import (
 	"os"
 	"strings"
 	"testing"
+	"time"
 
 	"github.com/lestrrat-go/jwx/v2/jwk"
 	"github.com/lestrrat-go/jwx/v2/jws"
 	"github.com/lestrrat-go/jwx/v2/jwt"
 	nutsJwx "github.com/nuts-foundation/nuts-node/crypto/jwx"
 	"github.com/mr-tron/base58"
+	ssi "github.com/nuts-foundation/go-did"
 	"github.com/nuts-foundation/go-did/did"
 	"github.com/nuts-foundation/go-did/vc"
 	nutsCrypto "github.com/nuts-foundation/nuts-node/crypto"
@@ -528,6 +530,182 @@ func TestVerifC19(t *testing.T) {
 	}
 	// vcr/credential helpers, modelled part (NutsModel/C19/Cred.lean): ResolveSubjectDID, PresentationSigner (+ ParseLDProof),
 	// PresenterIsCredentialSubject on every presentation go-did parses; library results are observed independently as data
+	// vcr/credential helpers, second modelled part (NutsModel/C19/CredMore.lean): PresentationIssuanceDate / PresentationExpirationDate,
+	// AutoCorrectSelfAttestedCredential, FilterOnDIDMethod.  The real functions run on EVERY input; an (abstract data, outcome) pair that was
+	// already emitted is not emitted again.
+	credMoreSeen := map[string]bool{}
+	emitOnce := func(op map[string]any, in string, line string) {
+		b, _ := json.Marshal(op)
+		k := string(b) + "|" + line
+		if credMoreSeen[k] {
+			o.dist[fmt.Sprint(op["op"])+":repeat-not-emitted"]++
+			return
+		}
+		credMoreSeen[k] = true
+		op["input"] = in
+		if len(in) > 6000 {
+			op["input"] = c19Short(in, 6000)
+		}
+		o.emit(op, line)
+	}
+	tmStr := func(t time.Time) any {
+		if t.IsZero() {
+			return nil
+		}
+		return t.UTC().Format(time.RFC3339Nano)
+	}
+	tmRes := func(t *time.Time) string {
+		if t == nil {
+			return "nil"
+		}
+		if t.IsZero() {
+			return "ZERO-TIME-RETURNED"
+		}
+		return t.UTC().Format(time.RFC3339Nano)
+	}
+	credAutoOp := func(c vc.VerifiableCredential, in string, src string) {
+		op := map[string]any{"op": "cred.autocorrect", "src": src, "nProof": len(c.Proof), "idNil": c.ID == nil, "issuerEmpty": c.Issuer.String() == "", "issuanceZero": c.IssuanceDate.IsZero(), "nCS": len(c.CredentialSubject)}
+		var cs []map[string]interface{}
+		_ = c.UnmarshalCredentialSubject(&cs)
+		subj := []any{}
+		for _, m := range cs {
+			if m == nil {
+				subj = append(subj, nil)
+			} else {
+				_, has := m["id"]
+				subj = append(subj, has)
+			}
+		}
+		op["subj"] = subj
+		beforeID, beforeIssuer, beforeDate := "", c.Issuer.String(), c.IssuanceDate
+		if c.ID != nil {
+			beforeID = c.ID.String()
+		}
+		beforeSubj, _ := json.Marshal(c.CredentialSubject)
+		c19Mark(map[string]any{"op": "cred.autocorrect", "src": src, "input": in})
+		line := c19Class(c19Guard(func() string {
+			out := credential.AutoCorrectSelfAttestedCredential(c, webID)
+			afterID := ""
+			if out.ID != nil {
+				afterID = out.ID.String()
+			}
+			afterSubj, _ := json.Marshal(out.CredentialSubject)
+			res := fmt.Sprintf("ok id=%v issuer=%v date=%v subject=%v", afterID != beforeID, out.Issuer.String() != beforeIssuer, !out.IssuanceDate.Equal(beforeDate), string(afterSubj) != string(beforeSubj))
+			// clause S on the implementation's own output: a credential that carries a proof comes back unchanged; a member the client supplied is never replaced
+			if len(c.Proof) > 0 && strings.Contains(res, "true") {
+				res += " INVARIANT-BROKEN a signed credential was modified"
+			}
+			if (beforeID != "" && afterID != beforeID) || (beforeIssuer != "" && out.Issuer.String() != beforeIssuer) || (!beforeDate.IsZero() && !out.IssuanceDate.Equal(beforeDate)) {
+				res += " INVARIANT-BROKEN a supplied member was overwritten"
+			}
+			return res
+		}))
+		emitOnce(op, in, line)
+	}
+	credFilterOps := func(creds []vc.VerifiableCredential, in string, src string) {
+		data := []any{}
+		tagged := make([]vc.VerifiableCredential, len(creds))
+		for i, c := range creds {
+			row := map[string]any{"issuer": nil, "subjOk": false, "subjects": []any{}}
+			if d, err := did.ParseDID(c.Issuer.String()); err == nil {
+				row["issuer"] = d.Method
+			}
+			bl := make([]credential.BaseCredentialSubject, 0)
+			if c.UnmarshalCredentialSubject(&bl) == nil {
+				row["subjOk"] = true
+				subs := []any{}
+				for _, b := range bl {
+					e := map[string]any{"idEmpty": b.ID == "", "method": nil}
+					if d, err := did.ParseDID(b.ID); err == nil {
+						e["method"] = d.Method
+					}
+					subs = append(subs, e)
+				}
+				row["subjects"] = subs
+			}
+			data = append(data, row)
+			tagged[i] = c
+			u := ssi.MustParseURI(fmt.Sprintf("urn:c19:%d", i))
+			tagged[i].ID = &u
+		}
+		for _, ms := range [][]string{{}, {"web"}, {"nuts", "jwk"}, {"web", "nuts"}} {
+			op := map[string]any{"op": "cred.filter", "src": src, "methods": ms, "creds": data}
+			c19Mark(map[string]any{"op": "cred.filter", "src": src, "input": in})
+			line := c19Class(c19Guard(func() string {
+				out := credential.FilterOnDIDMethod(tagged, ms)
+				var idx []string
+				last := -1
+				bad := ""
+				for _, c := range out {
+					n := -1
+					if c.ID != nil {
+						fmt.Sscanf(c.ID.String(), "urn:c19:%d", &n)
+					}
+					if n <= last || n >= len(creds) {
+						bad = " INVARIANT-BROKEN the result is not a subsequence of the input"
+					}
+					last = n
+					idx = append(idx, fmt.Sprint(n))
+					// soundness on the implementation's own output (constant expectation, not the model): a kept credential has no DID of a method that was not asked for
+					if len(ms) > 0 && n >= 0 && n < len(creds) {
+						row := data[n].(map[string]any)
+						okm := func(m any) bool {
+							if m == nil {
+								return true
+							}
+							for _, x := range ms {
+								if x == m {
+									return true
+								}
+							}
+							return false
+						}
+						if !okm(row["issuer"]) {
+							bad = " INVARIANT-BROKEN a credential of an issuer with another DID method was kept"
+						}
+						for _, b := range row["subjects"].([]any) {
+							if e := b.(map[string]any); e["idEmpty"] == false && !okm(e["method"]) {
+								bad = " INVARIANT-BROKEN a credential of a subject with another DID method was kept"
+							}
+						}
+					}
+				}
+				return "kept=[" + strings.Join(idx, ",") + "]" + bad
+			}))
+			emitOnce(op, in, line)
+		}
+	}
+	credDatesOp := func(vp *vc.VerifiablePresentation, base map[string]any, in string) {
+		op := map[string]any{"op": "cred.dates", "src": "vp", "nbf": nil, "iat": nil, "exp": nil, "created": nil, "expiresNil": true, "expires": nil}
+		for _, k := range []string{"format", "kid", "proofsOk", "nProofs", "parsedDID"} {
+			op[k] = base[k]
+		}
+		if vp.Format() == vc.JWTPresentationProofFormat && vp.JWT() != nil {
+			op["nbf"], op["iat"], op["exp"] = tmStr(vp.JWT().NotBefore()), tmStr(vp.JWT().IssuedAt()), tmStr(vp.JWT().Expiration())
+		}
+		var proofs []proof.LDProof
+		if vp.UnmarshalProofValue(&proofs) == nil && len(proofs) > 0 {
+			op["created"] = tmStr(proofs[0].Created)
+			if proofs[0].Expires != nil {
+				op["expiresNil"], op["expires"] = false, tmStr(*proofs[0].Expires)
+			}
+		}
+		c19Mark(map[string]any{"op": "cred.dates", "src": "vp", "input": in})
+		line := "iss=" + c19Class(c19Guard(func() string { return tmRes(credential.PresentationIssuanceDate(*vp)) })) +
+			" exp=" + c19Class(c19Guard(func() string { return tmRes(credential.PresentationExpirationDate(*vp)) }))
+		if strings.Contains(line, "ZERO-TIME") {
+			line += " INVARIANT-BROKEN a zero time was returned as a date"
+		}
+		emitOnce(op, in, line)
+	}
+	credVCOp := func(in string) {
+		c, err := vc.ParseVerifiableCredential(in)
+		if err != nil {
+			return
+		}
+		credFilterOps([]vc.VerifiableCredential{*c}, in, "vc")
+		credAutoOp(*c, in, "vc")
+	}
 	credOp := func(in string) {
 		vp, err := vc.ParseVerifiablePresentation(in)
 		if err != nil {
@@ -621,6 +799,11 @@ func TestVerifC19(t *testing.T) {
 			op["input"] = c19Short(in, 6000)
 		}
 		o.emit(op, line)
+		credDatesOp(vp, op, in)
+		credFilterOps(vp.VerifiableCredential, in, "vp")
+		for _, c := range vp.VerifiableCredential {
+			credAutoOp(c, in, "vp")
+		}
 	}
 	eps := map[string]func(string) string{"pe.ParseEnvelope": envelopePath, "pe.match+validate": pePath, "dag.ParseTransaction": parseTx, "didweb.Resolve": web, "didkey.Resolve": key, "didjwk.Resolve": jwkR, "crypto.ParseJWT": parseJWT, "credential.vp": vpPath, "credential.vc": vcPath}
 
@@ -633,6 +816,14 @@ func TestVerifC19(t *testing.T) {
 		if op["op"] == "cred.presenter" {
 			in, _ := op["input"].(string)
 			credOp(in)
+		}
+		if op["op"] == "cred.dates" || op["op"] == "cred.autocorrect" || op["op"] == "cred.filter" {
+			in, _ := op["input"].(string)
+			if op["src"] == "vc" {
+				credVCOp(in)
+			} else {
+				credOp(in)
+			}
 		}
 		if op["op"] == "didkey" {
 			m, _ := op["method"].(string)
@@ -657,6 +848,9 @@ func TestVerifC19(t *testing.T) {
 		}
 		if ep == "credential.vp" {
 			credOp(in)
+		}
+		if ep == "credential.vc" {
+			credVCOp(in)
 		}
 		if ep == "crypto.ParseJWT" {
 			jwxOp(in)
@@ -1048,6 +1242,67 @@ func TestVerifC19(t *testing.T) {
 				o.dist["cred.presenter:jwt-table"]++
 				credOp(sg.compact([]byte(h), []byte(claims), true))
 			}
+		}
+	}
+	{
+		// self-attested credentials as an API client posts them: credentialSubject of every shape x members present/absent x proof present/absent/empty
+		for _, subj := range []string{`-`, `null`, `"x"`, `5`, `true`, `[]`, `{}`, `{"id":"did:web:holder.example.com"}`, `{"id":null}`, `{"id":5}`, `{"name":"y"}`, `[null]`, `["x"]`, `[{}]`, `[{"id":"did:nuts:abc"}]`, `[{},{}]`, `[{"name":"y"},{"id":"did:web:holder.example.com"}]`, `[[]]`, `[[{"id":"x"}]]`} {
+			for _, prf := range []string{`-`, `null`, `[]`, `{}`, `{"type":"JsonWebSignature2020","jws":"e30..AAAA"}`, `[{"type":"x"},{"type":"y"}]`} {
+				for _, members := range []int{0, 1, 2, 4, 7} {
+					for _, iss := range []string{`"did:web:example.com"`, `"did:nuts:issuer"`, `"https://example.com/issuer"`, `""`} {
+						doc := `{"@context":["https://www.w3.org/2018/credentials/v1"],"type":["VerifiableCredential","SelfAttested"]`
+						if members&1 != 0 {
+							doc += `,"id":"did:web:example.com#1"`
+						}
+						if members&2 != 0 {
+							doc += `,"issuer":` + iss
+						} else if iss != `"did:web:example.com"` {
+							continue
+						}
+						if members&4 != 0 {
+							doc += `,"issuanceDate":"2024-01-01T00:00:00Z"`
+						}
+						if subj != `-` {
+							doc += `,"credentialSubject":` + subj
+						}
+						if prf != `-` {
+							doc += `,"proof":` + prf
+						}
+						o.dist["cred.autocorrect:table"]++
+						credVCOp(doc + `}`)
+					}
+				}
+			}
+		}
+		// presentations whose proof carries created / expires of every shape, JWT presentations with nbf / iat / exp present, absent, zero
+		for _, created := range []string{`-`, `"2024-01-01T00:00:00Z"`, `"0001-01-01T00:00:00Z"`, `null`} {
+			for _, expires := range []string{`-`, `"2034-01-01T00:00:00Z"`, `"0001-01-01T00:00:00Z"`, `null`} {
+				for _, wrap := range []string{`%s`, `[%s]`, `[%s,%s]`, `[]`} {
+					p := `{"type":"JsonWebSignature2020","verificationMethod":"did:web:holder.example.com#key-1","proofPurpose":"authentication","jws":"e30..AAAA"`
+					if created != `-` {
+						p += `,"created":` + created
+					}
+					if expires != `-` {
+						p += `,"expires":` + expires
+					}
+					p += `}`
+					o.dist["cred.dates:ld-table"]++
+					credOp(`{"@context":["https://www.w3.org/2018/credentials/v1"],"type":"VerifiablePresentation","proof":` + strings.ReplaceAll(wrap, `%s`, p) + `}`)
+				}
+			}
+		}
+		for mask := 0; mask < 27; mask++ {
+			claims := `{"iss":"did:web:holder.example.com","vp":{"@context":["https://www.w3.org/2018/credentials/v1"],"type":"VerifiablePresentation"}`
+			for i, name := range []string{"nbf", "iat", "exp"} {
+				switch (mask / []int{1, 3, 9}[i]) % 3 {
+				case 1:
+					claims += fmt.Sprintf(`,"%s":%d`, name, 1700000000+i)
+				case 2:
+					claims += `,"` + name + `":0`
+				}
+			}
+			o.dist["cred.dates:jwt-table"]++
+			credOp(sg.compact([]byte(`{"alg":"ES256","typ":"JWT","kid":"did:web:holder.example.com#key-1"}`), []byte(claims+`}`), true))
 		}
 	}
 	jsystematic([]byte(validVC), func(b []byte, kind string) { run("credential.vc", string(b), kind) })
